@@ -74,6 +74,26 @@ def pick_len(rng, cap, focus=False):
     return rng.below(min(cap, 40) + 1)
 
 
+def gen_bytes(rng, n):
+    """n bytes; one time in four they begin with a self-describing header (DER SEQUENCE / OCTET STRING with short, one- and two-byte
+    lengths, CBOR byte-string / map heads) whose declared length is exactly, less than or more than what follows: code that 'tidies'
+    certificates, keys or nested CBOR reacts only to such content, never to uniformly random bytes"""
+    if n < 4 or not rng.chance(1, 4):
+        return rng.bytes(n)
+    body = n - 4
+    decl = rng.choice([body, body, max(0, body - 1), max(0, body - 16), body + 1, body + 420, 0, 0xFFFF])
+    kind = rng.below(6)
+    if kind <= 2:
+        head = bytes([0x30, 0x82]) + (decl & 0xFFFF).to_bytes(2, "big")
+    elif kind == 3:
+        head = bytes([0x30, 0x81, decl & 0xFF, 0x02])
+    elif kind == 4:
+        head = bytes([0x59]) + (decl & 0xFFFF).to_bytes(2, "big") + b"\x00"
+    else:
+        head = bytes([0x04, 0x82]) + (decl & 0xFFFF).to_bytes(2, "big")
+    return head + rng.bytes(n - 4)
+
+
 def pick_int(rng, maxv, focus=False):
     edges = [e for e in INT_EDGES if e <= maxv] + [maxv, max(0, maxv - 1)]
     if focus or rng.chance(1, 2):
@@ -106,9 +126,9 @@ class Gen:
         if k == "unit":
             return ("U",)
         if k in ("bytesref", "sliceref"):
-            return ("b", rng.bytes(pick_len(rng, 64, focus)))
+            return ("b", gen_bytes(rng, pick_len(rng, 64, focus)))
         if k == "bytescap":
-            return ("b", rng.bytes(pick_len(rng, ty[1], focus)))
+            return ("b", gen_bytes(rng, pick_len(rng, ty[1], focus)))
         if k in ("bytearr", "bytearrref", "arr", "arrref"):
             return ("b", rng.bytes(ty[1]))
         if k == "strref":
@@ -148,12 +168,22 @@ class Gen:
                     # types that cannot be built outside the crate
                     if fty[1] == ("named", "ctap2::make_credential::UnsignedExtensionOutputs"):
                         on = False
-                    if f["skip_ser"]:
+                    if f["skip_ser"] and isinstance(present, (set, frozenset)):
                         on = False
                     fs.append((f["label"], ("S", self.val(fty[1], sub, focus, depth + 1)) if on else ("N",)))
                 else:
                     sub = present if present in ("all", "none") else None
                     fs.append((f["label"], self.val(fty, sub, focus, depth + 1)))
+            # coinciding members: one time in three a present member takes the value of another present member of the same type
+            # (name = displayName, challenge = appId, ...): independently drawn values practically never coincide
+            if rng.chance(1, 3):
+                inner = {f["label"]: (f["ty"][1] if f["ty"][0] == "opt" else f["ty"]) for f in d["fields"]}
+                live = [(j, l, v) for j, (l, v) in enumerate(fs) if v != ("N",)]
+                cands = [(a, b) for a in live for b in live if a[0] < b[0] and inner[a[1]] == inner[b[1]] and inner[a[1]][0] in ("strcap", "strref", "bytescap", "bytesref", "bytearr", "bytearrref")]
+                if cands:
+                    a, b = rng.choice(cands)
+                    src = a[2][1] if a[2][0] == "S" else a[2]
+                    fs[b[0]] = (b[1], ("S", src) if b[2][0] == "S" else src)
             return ("R", fs)
         if d["kind"] == "strenum":
             return ("E", rng.choice(d["variants"])[0])
@@ -163,6 +193,8 @@ class Gen:
             vn, vty = rng.choice(d["variants"])
             return ("V", vn, self.val(vty, present if present in ("all", "none") else None, focus, depth + 1))
         if d["kind"] == "custom":
+            if name == "webauthn::Icon":
+                return ("U",)
             if name == "webauthn::FilteredPublicKeyCredentialParameters":
                 n = rng.below(3)
                 return ("L", [("R", [("alg", ("i", rng.choice([-7, -8])))]) for _ in range(n)])
@@ -199,9 +231,9 @@ class Gen:
         if k == "unit":
             return None
         if k == "bytesref":
-            return rng.bytes(pick_len(rng, 300 if rng.chance(1, 8) else 48, focus))
+            return gen_bytes(rng, pick_len(rng, 300 if rng.chance(1, 8) else 48, focus))
         if k == "bytescap":
-            return rng.bytes(pick_len(rng, ty[1], focus))
+            return gen_bytes(rng, pick_len(rng, ty[1], focus))
         if k in ("bytearrref", "bytearr"):
             return rng.bytes(ty[1])
         if k == "strref":
